@@ -258,6 +258,8 @@ class SimE(Simulator):
         if rng.random() < 0.4:
             k = rng.randint(0, len(method))
             method = method[:k] + [["S%03d" % k, rng.choice(["Stop", "Restart"])]] + method[k:]
+        if rng.random() < 0.5:
+            method = [["F000", "Mark: first"]] + method      # "runs again from its first line" is observable
         ops: list[list] = [["user", "Start"]]
         for i in range(rng.randint(1, 4)):
             ops.append(["tick", rng.choice([1, 2, 3, 4, 5, 6, 8, 11, 17]), 0.1])
